@@ -889,6 +889,13 @@ class Server:
             args = await response_queue.get()
             try:
                 await self.write_response(stream, *args)
+            except BaseException:
+                # nobody will write what is still queued: do not leave the
+                # dispatcher's join() waiting for it
+                while not response_queue.empty():
+                    response_queue.get_nowait()
+                    response_queue.task_done()
+                raise
             finally:
                 response_queue.task_done()
 
@@ -926,7 +933,9 @@ class Server:
             path_io_factory=self.path_io_factory,
             path_timeout=self.path_timeout,
             extra_workers=set(),
-            response=lambda *args: response_queue.put_nowait(args),
+            response=lambda *args: (
+                response_task.done() or response_queue.put_nowait(args)
+            ),
             acquired=False,
             restart_offset=0,
             transfer_offset=0,
@@ -937,9 +946,12 @@ class Server:
             timeout=self.path_timeout,
             connection=connection,
         )
+        response_task = asyncio.create_task(
+            self.response_writer(stream, response_queue),
+        )
         pending = {
             asyncio.create_task(self.greeting(connection, "")),
-            asyncio.create_task(self.response_writer(stream, response_queue)),
+            response_task,
             asyncio.create_task(self.parse_command(stream)),
         }
         self.connections[key] = connection
